@@ -67,8 +67,8 @@ Definition live_itemS (S : astate2) (p : ptr) : ptr :=
   | Some x => if bool_decide (x ∈ owned (a_forest S)) then p else None
   | None => None
   end.
-Definition sweepS (S : astate2) (st : CO.state) : CO.state :=
-  CO.mkState (map (live_itemS S) (CO.st_items st)) (CO.st_strs st).
+Definition sweepS (S : astate2) (st : CoreOps.state) : CoreOps.state :=
+  CoreOps.mkState (map (live_itemS S) (CoreOps.st_items st)) (CoreOps.st_strs st).
 
 (** what the caller reads at a returned [char *]: NULL, or the C string of a readable block *)
 Definition cstrS (S : astate2) (q : ptr) : option (option bytes) :=
@@ -87,10 +87,10 @@ Definition each_types (S : astate2) (a : ptr) : list Z :=
   | None => []
   end.
 
-Definition encS (k : kind) (S' : astate2) (r : res3) : CO.result :=
+Definition encS (k : kind) (S' : astate2) (r : res3) : CoreOps.result :=
   match k with
-  | KStr => CO.RStr (match cstrS S' (res_ptr3 r) with Some s => s | None => None end)
-  | KEach a => CO.RInts (each_types S' a)
+  | KStr => CoreOps.RStr (match cstrS S' (res_ptr3 r) with Some s => s | None => None end)
+  | KEach a => CoreOps.RInts (each_types S' a)
   | _ => enc k r
   end.
 
@@ -106,7 +106,7 @@ Definition post_okb (k : kind) (S' : astate2) (r : res3) : bool :=
   | _ => true
   end.
 
-Definition stepS (st : CO.state) (S : astate2) (o : CO.op) : option (CO.result * CO.state * astate2) :=
+Definition stepS (st : CoreOps.state) (S : astate2) (o : CoreOps.op) : option (CoreOps.result * CoreOps.state * astate2) :=
   match tr (sview S) st o with
   | None => None
   | Some t =>
@@ -119,10 +119,10 @@ Definition stepS (st : CO.state) (S : astate2) (o : CO.op) : option (CO.result *
   end.
 
 (** the proof-level operations of a step *)
-Definition step_ops (st : CO.state) (S : astate2) (o : CO.op) : list op3 :=
+Definition step_ops (st : CoreOps.state) (S : astate2) (o : CoreOps.op) : list op3 :=
   match tr (sview S) st o with Some t => tr_ops t | None => [] end.
 
-Fixpoint runS (st : CO.state) (S : astate2) (ops : list CO.op) : option (list CO.result * CO.state * astate2) :=
+Fixpoint runS (st : CoreOps.state) (S : astate2) (ops : list CoreOps.op) : option (list CoreOps.result * CoreOps.state * astate2) :=
   match ops with
   | [] => Some ([], st, S)
   | o :: r =>
@@ -137,7 +137,7 @@ Fixpoint runS (st : CO.state) (S : astate2) (ops : list CO.op) : option (list CO
   end.
 
 (** the translated history *)
-Fixpoint tr_hist (st : CO.state) (S : astate2) (ops : list CO.op) : list op3 :=
+Fixpoint tr_hist (st : CoreOps.state) (S : astate2) (ops : list CoreOps.op) : list op3 :=
   match ops with
   | [] => []
   | o :: r =>
@@ -146,14 +146,14 @@ Fixpoint tr_hist (st : CO.state) (S : astate2) (ops : list CO.op) : list op3 :=
   end.
 
 (** ACCEPTED: every step is defined *)
-Definition accepted (ops : list CO.op) : bool :=
-  match runS CO.empty_state S0 ops with Some _ => true | None => false end.
+Definition accepted (ops : list CoreOps.op) : bool :=
+  match runS CoreOps.empty_state S0 ops with Some _ => true | None => false end.
 
 (** * sane pools *)
 Definition FL (h : heap) (x : positive) : Prop := h_own h !! x = Some Foreign /\ x ∈ h_live h.
-Definition PoolsOK (h : heap) (st : CO.state) (S : astate2) : Prop :=
-  (forall x, Some x ∈ CO.st_items st -> x ∈ owned (a_forest S)) /\
-  (forall x, Some x ∈ CO.st_strs st -> FL h x).
+Definition PoolsOK (h : heap) (st : CoreOps.state) (S : astate2) : Prop :=
+  (forall x, Some x ∈ CoreOps.st_items st -> x ∈ owned (a_forest S)) /\
+  (forall x, Some x ∈ CoreOps.st_strs st -> FL h x).
 
 Lemma FL_mono h h' x : HeapOK h -> Cons_post h h' -> FL h x -> FL h' x.
 Proof.
@@ -162,16 +162,16 @@ Proof.
 Qed.
 
 (** the pools after the string declarations of a translated call *)
-Definition pools_after (h : heap) (st st1 : CO.state) (pre : list bytes) : Prop :=
-  CO.st_items st1 = CO.st_items st /\
+Definition pools_after (h : heap) (st st1 : CoreOps.state) (pre : list bytes) : Prop :=
+  CoreOps.st_items st1 = CoreOps.st_items st /\
   exists h1, run_pre pre h = Ret (tt, h1) /\ Cons_post h h1 /\
-    forall x, Some x ∈ CO.st_strs st1 -> Some x ∈ CO.st_strs st \/ FL h1 x.
+    forall x, Some x ∈ CoreOps.st_strs st1 -> Some x ∈ CoreOps.st_strs st \/ FL h1 x.
 
 Lemma pools_after_refl h st : HeapOK h -> pools_after h st st [].
 Proof. intros K. split; [done|]. exists h. split; [done|]. split; [by apply Cons_post_refl|]. intros x Hx. by left. Qed.
 
 Lemma pools_after_decl h st c :
-  HeapOK h -> pools_after h st (CO.push_str st (Some (h_next h))) [c].
+  HeapOK h -> pools_after h st (CoreOps.push_str st (Some (h_next h))) [c].
 Proof.
   intros K. split; [done|]. exists (foreign_heap h c). split; [done|].
   split; [by apply (Cons_foreign_bytes c h (Some (h_next h)))|].
@@ -265,48 +265,48 @@ Lemma Abs3_WF' h S : Abs3 h S -> WF h (a_forest S).
 Proof. by intros [((W & _) & _) _]. Qed.
 
 Lemma live_item_agree h S x :
-  Abs3 h S -> h_own h !! x = Some Lib -> CO.live_ptr h (Some x) = live_itemS S (Some x).
+  Abs3 h S -> h_own h !! x = Some Lib -> CoreOps.live_ptr h (Some x) = live_itemS S (Some x).
 Proof.
-  intros HA Ho. unfold CO.live_ptr, live_itemS. destruct (decide (x ∈ h_live h)) as [Hl|Hl].
+  intros HA Ho. unfold CoreOps.live_ptr, live_itemS. destruct (decide (x ∈ h_live h)) as [Hl|Hl].
   - rewrite bool_decide_eq_true_2; [done|]. apply (Abs3_ledger _ _ HA). unfold lib_live. by apply elem_of_filter.
   - rewrite bool_decide_eq_false_2; [done|]. intros Hx. apply Hl. apply (Abs3_ledger _ _ HA) in Hx.
     unfold lib_live in Hx. by apply elem_of_filter in Hx as [_ ?].
 Qed.
 
 Lemma sweep_agree h S st :
-  Abs3 h S -> (forall y, Some y ∈ CO.st_items st -> h_own h !! y = Some Lib) ->
-  (forall y, Some y ∈ CO.st_strs st -> FL h y) -> sweep_st h st = sweepS S st.
+  Abs3 h S -> (forall y, Some y ∈ CoreOps.st_items st -> h_own h !! y = Some Lib) ->
+  (forall y, Some y ∈ CoreOps.st_strs st -> FL h y) -> sweep_st h st = sweepS S st.
 Proof.
   intros HA HI HS. unfold sweep_st, sweepS. f_equal.
   - apply map_ext_in. intros [y|] Hy; [|done]. apply live_item_agree; [done|]. apply HI. by apply elem_of_list_In.
-  - rewrite <- (map_id (CO.st_strs st)) at 2. apply map_ext_in. intros [y|] Hy; [|done].
-    unfold CO.live_ptr. rewrite decide_True; [done|]. apply HS. by apply elem_of_list_In.
+  - rewrite <- (map_id (CoreOps.st_strs st)) at 2. apply map_ext_in. intros [y|] Hy; [|done].
+    unfold CoreOps.live_ptr. rewrite decide_True; [done|]. apply HS. by apply elem_of_list_In.
 Qed.
 
-Lemma sweepS_items S st y : Some y ∈ CO.st_items (sweepS S st) -> y ∈ owned (a_forest S).
+Lemma sweepS_items S st y : Some y ∈ CoreOps.st_items (sweepS S st) -> y ∈ owned (a_forest S).
 Proof.
   cbn. intros H. apply elem_of_list_In, in_map_iff in H as ([z|] & Hz & _); [|done].
   unfold live_itemS in Hz. destruct (bool_decide (z ∈ owned (a_forest S))) eqn:Eb; [|done].
   injection Hz as ->. by apply bool_decide_eq_true in Eb.
 Qed.
 
-Lemma opt_cstr_abs h S q s : Abs3 h S -> cstrS S q = Some s -> CO.opt_cstr q h = Ret (s, h).
+Lemma opt_cstr_abs h S q s : Abs3 h S -> cstrS S q = Some s -> CoreOps.opt_cstr q h = Ret (s, h).
 Proof.
   intros [(_ & Hstr & [SI1 _] & _) _] H. destruct q as [b|]; cbn [cstrS] in H; [|by injection H as <-].
   destruct (a_str S !! b) as [s0|] eqn:Eb; [|done]. destruct (has0 s0) eqn:Ez; [|done]. injection H as <-.
-  unfold CO.opt_cstr. cbn [is_null]. destruct (SI1 _ _ Eb) as [Hl _].
+  unfold CoreOps.opt_cstr. cbn [is_null]. destruct (SI1 _ _ Eb) as [Hl _].
   assert (Hs : h_str h !! b = Some s0) by (by rewrite Hstr).
   by rewrite (bindM_Ret _ _ _ _ _ (run_ld_cstr_plain _ _ _ Hl Hs Ez)).
 Qed.
 
 Lemma each_abs h S a :
-  Abs3 h S -> post_okb (KEach a) S (R RUnit) = true -> CO.array_for_each a h = Ret (each_types S a, h).
+  Abs3 h S -> post_okb (KEach a) S (R RUnit) = true -> CoreOps.array_for_each a h = Ret (each_types S a, h).
 Proof.
   intros HA H. destruct a as [p|]; cbn [post_okb each_types] in *.
   - destruct (find_tree p (a_forest S)) as [[p' d cs]|] eqn:Ep; [|done].
     pose proof (find_tree_Some _ _ _ Ep) as [_ Hx]. cbn in Hx. subst p'.
     apply negb_true_iff in H. by apply (array_for_each_sim _ _ _ _ _ (Abs3_WF' _ _ HA) Ep H).
-  - unfold CO.array_for_each, heap_fuel, bindM. cbn [is_null negb ret].
+  - unfold CoreOps.array_for_each, heap_fuel, bindM. cbn [is_null negb ret].
     destruct (Pos.to_nat (h_next h)) eqn:E; [|done]. pose proof (Pos2Nat.is_pos (h_next h)). lia.
 Qed.
 
@@ -315,7 +315,7 @@ Qed.
     proof-level interpreter reaches on the translated operations; [h'] represents the model's next state. *)
 Theorem stepS_sim h st S o x st1 S1 :
   Abs3 h S -> PoolsOK h st S -> stepS st S o = Some (x, st1, S1) ->
-  exists h', CO.run_op nv st o h = Ret ((x, st1), h') /\
+  exists h', CoreOps.run_op nv st o h = Ret ((x, st1), h') /\
              run_ops3 (step_ops st S o) h = Ret (spec_results3 S (step_ops st S o), h') /\
              S1 = spec_run3 S (step_ops st S o) /\ Abs3 h' S1 /\ PoolsOK h' st1 S1.
 Proof.
@@ -332,11 +332,11 @@ Proof.
   destruct (tr_pools _ _ _ _ _ HV K Et) as (Hitems & h1 & Hp1 & CP1 & Hstrs).
   pose proof (run_tr_split _ _ _ _ _ Hrun Hp1) as Hmain.
   assert (CP2 : Cons_post h1 h') by (eapply Cons_run_main; [exact Hmain|apply CP1]).
-  assert (HS' : forall y, Some y ∈ CO.st_strs (t_st t) -> FL h' y).
+  assert (HS' : forall y, Some y ∈ CoreOps.st_strs (t_st t) -> FL h' y).
   { intros y Hy. destruct (Hstrs y Hy) as [Hy0|Hy1].
     - eapply FL_mono; [exact K|exact CP|by apply PS].
     - eapply FL_mono; [apply CP1|exact CP2|done]. }
-  assert (HI' : forall y, Some y ∈ CO.st_items (t_st t) -> h_own h' !! y = Some Lib).
+  assert (HI' : forall y, Some y ∈ CoreOps.st_items (t_st t) -> h_own h' !! y = Some Lib).
   { intros y Hy. rewrite Hitems in Hy. pose proof (PI y Hy) as Ho. pose proof (Abs3_WF' _ _ HA) as W.
     rewrite (cp_own _ _ CP); [by apply (wf_owned_lib _ _ W)|by apply (wf_fresh _ _ W)]. }
   set (S' := spec_run3 S (tr_ops t)) in *. set (r := main_res t (spec_results3 S (tr_ops t))) in *.
@@ -378,7 +378,7 @@ Proof. induction l1 as [|o l1 IH]; intros S l2; [done|]. cbn [app spec_results3]
 (** EVERY ACCEPTED HISTORY, from any represented state with sane pools *)
 Theorem runS_sim ops : forall h st S xs st2 S2,
   Abs3 h S -> PoolsOK h st S -> runS st S ops = Some (xs, st2, S2) ->
-  exists h', CO.run_ops nv st ops h = Ret ((xs, st2), h') /\
+  exists h', CoreOps.run_ops nv st ops h = Ret ((xs, st2), h') /\
              run_ops3 (tr_hist st S ops) h = Ret (spec_results3 S (tr_hist st S ops), h') /\
              S2 = spec_run3 S (tr_hist st S ops) /\ Abs3 h' S2 /\ PoolsOK h' st2 S2.
 Proof.
@@ -389,23 +389,23 @@ Proof.
     destruct (stepS_sim _ _ _ _ _ _ _ HA HP Es) as (h1 & E1 & R1 & -> & HA1 & HP1).
     destruct (IH _ _ _ _ _ _ HA1 HP1 Er) as (h2 & E2 & R2 & -> & HA2 & HP2).
     exists h2. split_and!.
-    + cbn [CO.run_ops]. rewrite (bindM_Ret _ _ _ _ _ E1). cbn [fst snd]. by rewrite (bindM_Ret _ _ _ _ _ E2).
+    + cbn [CoreOps.run_ops]. rewrite (bindM_Ret _ _ _ _ _ E1). cbn [fst snd]. by rewrite (bindM_Ret _ _ _ _ _ E2).
     + rewrite spec_results3_app. by apply (run_ops3_app _ _ _ _ _ _ _ R1 R2).
     + by rewrite spec_run3_app.
     + done.
     + done.
 Qed.
 
-Lemma PoolsOK_empty : PoolsOK empty_heap CO.empty_state S0.
+Lemma PoolsOK_empty : PoolsOK empty_heap CoreOps.empty_state S0.
 Proof. split; intros x Hx; cbn in Hx; by apply elem_of_nil in Hx. Qed.
 
 (** the statement of [C06_history] for the interpreter that is extracted and executed *)
 Theorem history_extracted ops xs st' S' :
-  runS CO.empty_state S0 ops = Some (xs, st', S') ->
-  exists h', CO.run_ops nv CO.empty_state ops empty_heap = Ret ((xs, st'), h') /\
-             run_ops3 (tr_hist CO.empty_state S0 ops) empty_heap =
-               Ret (spec_results3 S0 (tr_hist CO.empty_state S0 ops), h') /\
-             S' = spec_run3 S0 (tr_hist CO.empty_state S0 ops) /\ Abs3 h' S'.
+  runS CoreOps.empty_state S0 ops = Some (xs, st', S') ->
+  exists h', CoreOps.run_ops nv CoreOps.empty_state ops empty_heap = Ret ((xs, st'), h') /\
+             run_ops3 (tr_hist CoreOps.empty_state S0 ops) empty_heap =
+               Ret (spec_results3 S0 (tr_hist CoreOps.empty_state S0 ops), h') /\
+             S' = spec_run3 S0 (tr_hist CoreOps.empty_state S0 ops) /\ Abs3 h' S'.
 Proof.
   intros E. destruct (runS_sim ops _ _ _ _ _ _ Abs3_empty PoolsOK_empty E) as (h' & H1 & H2 & H3 & H4 & _).
   by exists h'.
@@ -413,10 +413,10 @@ Qed.
 
 Corollary history_extracted_accepted ops :
   accepted ops = true ->
-  exists xs st' S' h', runS CO.empty_state S0 ops = Some (xs, st', S') /\
-    CO.run_ops nv CO.empty_state ops empty_heap = Ret ((xs, st'), h') /\ Abs3 h' S'.
+  exists xs st' S' h', runS CoreOps.empty_state S0 ops = Some (xs, st', S') /\
+    CoreOps.run_ops nv CoreOps.empty_state ops empty_heap = Ret ((xs, st'), h') /\ Abs3 h' S'.
 Proof.
-  unfold accepted. destruct (runS CO.empty_state S0 ops) as [[[xs st'] S']|] eqn:E; [|done]. intros _.
+  unfold accepted. destruct (runS CoreOps.empty_state S0 ops) as [[[xs st'] S']|] eqn:E; [|done]. intros _.
   destruct (history_extracted _ _ _ _ E) as (h' & H1 & _ & _ & H4). by exists xs, st', S', h'.
 Qed.
 
@@ -434,22 +434,22 @@ Qed.
 
 (** * the ledger (C07) for the extracted interpreter *)
 Theorem ledger_extracted ops xs st' S' :
-  runS CO.empty_state S0 ops = Some (xs, st', S') ->
+  runS CoreOps.empty_state S0 ops = Some (xs, st', S') ->
   exists h1 h2,
-    CO.run_ops nv CO.empty_state ops empty_heap = Ret ((xs, st'), h1) /\ Abs3 h1 S' /\
+    CoreOps.run_ops nv CoreOps.empty_state ops empty_heap = Ret ((xs, st'), h1) /\ Abs3 h1 S' /\
     (forall b, b ∈ lib_live h1 <-> b ∈ owned (a_forest S')) /\
-    CO.live_count h1 = length (owned (a_forest S')) /\
-    delete_roots (roots (a_forest S')) h1 = Ret (tt, h2) /\ lib_live h2 = ∅ /\ CO.live_count h2 = 0%nat /\
+    CoreOps.live_count h1 = length (owned (a_forest S')) /\
+    delete_roots (roots (a_forest S')) h1 = Ret (tt, h2) /\ lib_live h2 = ∅ /\ CoreOps.live_count h2 = 0%nat /\
     (forall b, h_own h1 !! b = Some Foreign -> b ∈ h_live h1 -> b ∈ h_live h2 /\ h_str h2 !! b = h_str h1 !! b).
 Proof.
   intros E. destruct (history_extracted _ _ _ _ E) as (h1 & H1 & _ & _ & HA).
   destruct (delete_roots_sim (a_forest S') S' h1 eq_refl HA) as (h2 & S2 & E2 & HA2 & _ & HL2).
   exists h1, h2. split_and!; try done.
   - by apply Abs3_ledger.
-  - unfold CO.live_count. pose proof (wf_owned_nodup _ _ (Abs3_WF' _ _ HA)) as ND.
+  - unfold CoreOps.live_count. pose proof (wf_owned_nodup _ _ (Abs3_WF' _ _ HA)) as ND.
     rewrite <- (size_list_to_set (C := gset positive) _ ND). f_equal. apply set_eq. intros b.
     rewrite elem_of_list_to_set. by apply Abs3_ledger.
-  - unfold CO.live_count. rewrite HL2. apply size_empty.
+  - unfold CoreOps.live_count. rewrite HL2. apply size_empty.
   - intros b Ho Hl. apply (cp_foreign _ _ (Cons_delete_roots _ _ _ _ E2 (proj2 HA)) b Ho Hl).
 Qed.
 
@@ -471,5 +471,5 @@ Proof.
 Qed.
 
 (** the oracle of the extracted driver for "no allocation failure" is [nv] *)
-Lemma fail_kth_0_never : CO.fail_kth 0 = nv.
+Lemma fail_kth_0_never : CoreOps.fail_kth 0 = nv.
 Proof. reflexivity. Qed.
